@@ -19,8 +19,8 @@ ASSUMPTIONS = [
 ]
 COMPONENTS = pcheck.components()
 TIERS = {
-    "quick": {"histories": 64, "budget_s": 110, "timeout": 300},
-    "thorough": {"histories": 1600, "budget_s": 1500, "timeout": 400},
+    "quick": {"histories": 512, "budget_s": 100, "timeout": 300},
+    "thorough": {"histories": 6400, "budget_s": 1500, "timeout": 400},
 }
 
 
